@@ -47,6 +47,7 @@ def run(ctx):
     ctx.ob('IFACE/conditional', cond, cond.methods[name].node if ok else cond.node, ok, 'the conditional wrapper defines %s' % name if ok else 'ConditionalEventSequenceEncoderDecoder lacks %s' % name,
            construct='ConditionalEventSequenceEncoderDecoder.%s' % name)
   wide_label(ctx)      # location-independent rules first
+  chord_labels(ctx)
   lookback(ctx, 'encoder_decoder:LookbackEventSequenceEncoderDecoder')
   lookback(ctx, 'melody_encoder_decoder:KeyMelodyEncoderDecoder')
   wrapper(ctx)
@@ -388,6 +389,17 @@ def noteperf(ctx):
   ei = ci.methods['events_to_input']
   ok = any(isinstance(s, ast.Assign) and norm_text(s.value) == '[0.0] * self._num_classes[i]' for s in U.walk_stmts(ei.node))
   ctx.ob('NOTEPERF/blocks', ei, ei.node, ok, 'block i has width _num_classes[i]' if ok else 'the one-hot blocks are not sized by _num_classes[i]', construct='note-performance block widths')
+
+
+def chord_labels(ctx):
+  """The generation loop turns every in-range label into an event through the one-hot encoding's decode_event; for the chord
+  encodings the split of a label into (quality, root) is the rule of C09 (shared): label 12k is the chord on B of quality k-1."""
+  from rules import C09
+  mi = ctx.P.module('chords_encoder_decoder')
+  env0 = C09._fold_env(ctx, mi, ['NOTES_PER_OCTAVE'])
+  for cname in ('MajorMinorChordOneHotEncoding', 'TriadChordOneHotEncoding'):
+    dec = mi.classes[cname].methods['decode_event']
+    C09.block_split(ctx, dec, dec.params()[1], env0, cname, rule='GEN/chord-label-split')
 
 
 # ------------------------------------------------------------------ pianoroll
